@@ -1,7 +1,7 @@
 //! Replay files and minimisation.
 
 use crate::gen;
-use crate::oracle::{evaluate, Finding};
+use crate::oracle::Finding;
 use crate::rng::mix;
 use crate::sim::Strategy;
 use crate::work::*;
@@ -34,8 +34,7 @@ pub fn run_once(
     class: Option<&str>,
     run_no: u32,
 ) -> (Option<Finding>, RunRecord) {
-    let rec = execute(cfg, run_no);
-    let (findings, _) = evaluate(cfg, &rec);
+    let (rec, findings, _) = crate::judge::run_and_judge(cfg, run_no);
     let hit = findings
         .into_iter()
         .find(|f| matches(f, prop) && class.map(|c| f.class == c).unwrap_or(true));
